@@ -12,6 +12,8 @@
   struct first, then every RR head followed by its values / options / address buffers).
 * The **pool** is one list of kind-tagged free intervals; `sync.Pool.Get` of kind `k` takes the first
   entry of kind `k`, `Put` conses.  (Which entry of a kind is taken is irrelevant for the theorems.)
+* The backing array of a slice owned by a struct (sections of a message, `OPT.Option`, `HTTPS.Value`, `TXT.Txt`,
+  `A.A`, …) is an object of its own (kinds ≥ 30) with `len ≤ cap`; `grow` is Go's `append` on it.
 * `kind` is the pooling class *by position*: an `*dns.A` in the answer section has the pooled kind of A
   records, the same record in the additional section has kind 0 (cloned with `dns.Copy`, never put back).
 -/
@@ -230,12 +232,60 @@ def anyOverlapIn : List Obj → Bool
 def anyAlias (s : St) (n : Nat) : Bool :=
   anyOverlapIn (((List.range n).filterMap s.live).flatten)
 
+/-! ### Slices with spare capacity
+
+The backing array of a slice that a struct owns (`Msg.Answer`, `Msg.Extra`, `OPT.Option`, `HTTPS.Value`,
+`TXT.Txt`, `A.A`, …) is an object of its own: `len` cells in use out of `cap`.  Whoever holds the message may
+`append` to such a slice (`Msg.SetEdns0`, `ecscache.setECS`, the filters): Go writes into the spare capacity
+when there is some and moves the content to a new array otherwise. -/
+
+/-- `append(x, v)` on the slice that is object `i` of message `h`.  In place when `len < cap`; otherwise the
+content moves to `max c (len+1)` fresh cells (`c` is the capacity the runtime chose) and the old array is
+abandoned. -/
+def grow (s : St) (h i v c : Nat) : St :=
+  match s.live h with
+  | none => s
+  | some m =>
+    match m[i]? with
+    | none => s
+    | some o =>
+      if o.len < o.cap then
+        { s with heap := writeL s.heap (o.start + o.len) [v],
+                 live := setLive s.live h (some (m.set i { o with len := o.len + 1 })) }
+      else
+        { s with heap := writeL s.heap s.next (content s.heap o ++ [v]),
+                 next := s.next + max c (o.len + 1),
+                 live := setLive s.live h
+                   (some (m.set i { kind := o.kind, start := s.next, len := o.len + 1, cap := max c (o.len + 1) })) }
+
+def insertAt {α : Type} (l : List α) (pos : Nat) (x : α) : List α := l.take pos ++ x :: l.drop pos
+
+def insertLive (s : St) (d pos : Nat) (o : Obj) : St :=
+  { s with live := setLive s.live d (some (insertAt ((s.live d).getD []) pos o)) }
+
+/-- The element that was appended to a slice of message `d` is itself an object (an RR, an EDNS0 option, an
+SVCB value, an address buffer): it takes position `pos` among the objects of `d`. -/
+def ins (s : St) (d pos : Nat) (usePool : Bool) (k : Nat) (vals : List Nat) : St × Bool :=
+  let r := mkObj s usePool k vals
+  (insertLive r.1 d pos r.2.1, r.2.2)
+
+/-- Do the reachable cells (capacity included) of two objects overlap? -/
+def overlapCap (a b : Obj) : Bool := !(disj a.start a.cap b.start b.cap)
+
+/-- Is there a pair of objects of two different live messages (handles `< n`) whose reachable cells, spare
+capacity included, overlap? -/
+def anyCapAlias (s : St) (n : Nat) : Bool :=
+  (List.range n).any (fun h1 => (List.range n).any (fun h2 => h1 != h2 &&
+    ((s.live h1).getD []).any (fun o1 => ((s.live h2).getD []).any (fun o2 => overlapCap o1 o2))))
+
 inductive Op where
   | new (d span : Nat) (ps : List Spec)
   | clone (src dst : Nat)
   | dispose (h : Nat)
   | make (d : Nat) (usePool : Bool) (k : Nat) (vals : List Nat)
   | poke (h i j v : Nat)
+  | grow (h i v c : Nat)
+  | ins (d pos : Nat) (usePool : Bool) (k : Nat) (vals : List Nat)
 
 def step (s : St) : Op → St
   | .new d span ps => newMsg s d span ps
@@ -243,6 +293,8 @@ def step (s : St) : Op → St
   | .dispose h => dispose s h
   | .make d u k vs => (make s d u k vs).1
   | .poke h i j v => poke s h i j v
+  | .grow h i v c => grow s h i v c
+  | .ins d pos u k vs => (ins s d pos u k vs).1
 
 def run (s : St) (ops : List Op) : St := ops.foldl step s
 
